@@ -211,6 +211,25 @@ def r3_visited_on_representative(ctx, F):
                               bad='%s: symmetry is applied to %r, not to the state under consideration %r' %
                                   (strat, av, wv), span=rc.span)
             if strat == 'DFS':
+                # the same where the initial states are registered: spawn() canonicalises them for the visited
+                # set only; the jobs start from the initial states themselves
+                from checkers import Spawn
+                sp = Spawn(F, strat)
+                nsb = F.norm(sp.b)
+                ctx.touched(sp.b)
+                sreps = [c for c in nsb.indirect_calls() if '.symmetry' in repr(noref(nsb.val(c.fnptr)))]
+                if not sreps:
+                    raise AnchorMissing('%s: call through the symmetry function' % sp.b.path)
+                for rc in sreps:
+                    fps = [c for c in nsb.calls_to('fingerprint')
+                           if noref(nsb.val(c.args[0])) in (V('call', rc.bb), V('local', rc.dest['l']))]
+                    other = [bb for (bb, p_, c_) in uses_of_local(nsb, rc.dest['l'])
+                             if not (nsb.dominates(rc.bb, bb) and any(bb in (f.bb, rc.target) for f in fps))]
+                    ctx.check(len(fps) == 1 and not other, rule, 'initial-representative-only-fingerprinted', sp.b,
+                              good='the representative of an initial state is used only to compute a fingerprint',
+                              bad='%s spawn: the canonicalised initial state is used beyond fingerprinting (blocks '
+                                  '%s): the search starts from a state that need not be an initial state, and every '
+                                  'path it reports begins there' % (strat, other), span=rc.span)
                 # fingerprint appended to the path comes from the un-canonicalised successor
                 from c01 import succ_value
                 sv = succ_value(cb)
